@@ -25,6 +25,22 @@ Definition parse_obs (data : bytes) : term :=
           end]
   end.
 
+(* what a reader of the profile sees, per sample: expanded frames (leaf first), values, labels *)
+Definition frame_view (p : profile) : term :=
+  TL (map (fun s =>
+    TL [TL (map (fun id =>
+          match find_location p id with
+          | Some l =>
+              TL [TZ (l_addr l);
+                  TS (match find_mapping p (l_mapping l) with Some m => m_file m | None => "" end);
+                  of_bool (l_folded l);
+                  TL (map (fun ln => match find_function p (ln_fn ln) with
+                                     | Some f => TL [TS (f_name f); TS (f_sysname f); TS (f_file f); TZ (f_startline f); TZ (ln_line ln); TZ (ln_col ln)]
+                                     | None => TL [TS "<nil>"] end) (l_lines l))]
+          | None => TL [TS "<nil-location>"]
+          end) (s_loc s));
+        of_zs (s_val s); of_kss (s_label s); of_kzs (s_numlabel s); of_kss (s_numunit s)]) (p_sample p)).
+
 Definition run_C01 (i : term) : term :=
   let op := gs (gn i 0) in
   if String.eqb op "ser" then
@@ -39,6 +55,8 @@ Definition run_C01 (i : term) : term :=
     | Ok q => TL [TS "ok"; of_profile q; of_profile q]
     | _ => TL [TS "panic"]
     end
+  else if String.eqb op "driverproto" then
+    TL [TS "ok"; frame_view (normalize (profile_of (gn i 1)))]
   else TL [TS "unknown-op"].
 
 (* the implementation's panic message is not compared *)
@@ -72,6 +90,10 @@ Definition spec_C01 (i o : term) : bool :=
   else if String.eqb op "ser" then
     let p := profile_of (gn i 1) in
     if units_wf_b p then String.eqb (gs (gn o 0)) "ok" else true
+  else if String.eqb op "driverproto" then
+    (* pprof -proto re-read shows the same samples: frames, values, labels *)
+    let p := profile_of (gn i 1) in
+    if valid_b p && units_wf_b p then term_eqb o (TL [TS "ok"; frame_view (normalize p)]) else true
   else true.
 
 Definition cls_C01 (i : term) : list Z := [].
